@@ -197,6 +197,8 @@ theorem srev_step (c : Cfg) (s : Sys D) (act : Act) : SRev s (step c s act) := b
           · exact SRev.commit _ _ _ _ _ (nrev_onIndTimeout c a now x shuf _)
           · exact SRev.commit _ _ _ _ _ (nrev_onSuspTimeout x _)
   | crash x now => exact SRev.of_nodes_eq rfl
+  | cut h ga gb now => exact SRev.of_nodes_eq rfl
+  | heal h now => exact SRev.of_nodes_eq rfl
 
 theorem srev_run (c : Cfg) (s : Sys D) (acts : List Act) : SRev s (run c s acts) := by
   induction acts generalizing s with
